@@ -65,6 +65,12 @@ VERIF_HARNESS(c07_s1_response) {
     ne_ctx.sendqueue = node;
     ne_sess.con_active = 1;
   }
+#ifdef PING_NODE
+  /* the queued Confirmable is the session's keep-alive ping: a Reset is the expected "pong" */
+  ne_ctx.ping_timeout = 30;
+  ne_sess.last_ping = 5;
+  ne_sess.last_ping_mid = mid;
+#endif
   coap_pdu_t *rcvd = ne_make_pdu(RTYPE, RCODE, mid, tok, RCODE ? 4 : 0);
   int dup = (RTYPE == T_CON && (int32_t)mid == last_con_mid) || (RTYPE == T_ACK && RCODE != 0 && (int32_t)mid == last_ack_mid);
   coap_dispatch(&ne_ctx, &ne_sess, rcvd);
@@ -105,7 +111,9 @@ VERIF_HARNESS(c07_s1_response) {
   VERIF_ASSERT(ne_tx_count == 0, "S1 nothing is sent in reply to an empty ACK/RST");
 #if NODE == 1
   VERIF_ASSERT(!ne_in_queue(ne_ctx.sendqueue, node), "S1 ACK/RST with the request's mid stops its retransmission");
-#if RTYPE == T_RST
+#if RTYPE == T_RST && defined(PING_NODE)
+  VERIF_ASSERT(ne_nack_count == 0 && ne_pong_count == 1, "S1 a Reset answering the keep-alive ping is a pong: pong handler once, no NACK");
+#elif RTYPE == T_RST
   VERIF_ASSERT(ne_nack_count == 1 && ne_nack_reason == COAP_NACK_RST && ne_nack_mid == mid, "S1 exactly one NACK(RST) for a reset Confirmable");
 #else
   VERIF_ASSERT(ne_nack_count == 0, "S1 an ACK completes the message silently");
@@ -326,4 +334,44 @@ VERIF_HARNESS(c08_s4_session_failure) {
   if (cons == NHELD + INFLIGHT && NHELD > 0) VERIF_REACH("failure with only Confirmables");
   if (NHELD == 0) VERIF_REACH("failure end");
 #endif
+}
+
+/* ---- C08-S5: an exchange ended by token (separate response after a lost ACK, observe cancel: coap_cancel_all_messages) frees its
+ * NSTART slot and the oldest held Confirmable takes it - for every NSTART, not only 1. Two Confirmables in flight (tokens A, B), one held. */
+VERIF_HARNESS(c08_s5_cancel_by_token) {
+  ne_init();
+  VERIF_IN(uint16_t, mid);
+  /* tokens concrete: which queue entries a token selects is pointer-valued control flow (symbolic tokens: no verdict in 900 s) */
+  static const uint8_t tokA[4] = {0xA1, 2, 3, 4}, tokB[4] = {0xB1, 2, 3, 4};
+#ifndef NSTART_C
+#define NSTART_C 2
+#endif
+  const uint8_t nstart = NSTART_C;       /* concrete per job: it decides the shape of the queues */
+  VERIF_IN(uint64_t, now);
+  VERIF_ASSUME(now < (1ull << 50));
+  env_now = now;
+  ne_ctx.sendqueue_basetime = now;
+  ne_sess.nstart = nstart;
+  coap_queue_t *a = ne_make_node(&ne_sess, ne_make_pdu(COAP_MESSAGE_CON, 1, mid, tokA, 4), 2000, 0);
+  coap_queue_t *b = ne_make_node(&ne_sess, ne_make_pdu(COAP_MESSAGE_CON, 1, (uint16_t)(mid + 1), tokB, 4), 2000, 0);
+  a->t = 2000; b->t = 10;
+  a->next = b;
+  ne_ctx.sendqueue = a;
+  ne_sess.con_active = 2;
+  coap_queue_t *h = coap_new_node();
+  h->pdu = ne_make_pdu(COAP_MESSAGE_CON, 1, (uint16_t)(mid + 2), tokB, 4);
+  h->id = h->pdu->mid;
+  h->timeout = 2000;
+  /* a message is only held while the window is full: with NSTART 3 a third Confirmable would not have been held */
+  if (nstart == 2) ne_sess.delayqueue = h;
+  coap_bin_const_t t = {4, tokA};
+  coap_cancel_all_messages(&ne_ctx, &ne_sess, &t);
+  VERIF_ASSERT(!ne_in_queue(ne_ctx.sendqueue, a) && ne_in_queue(ne_ctx.sendqueue, b), "S5 exactly the exchange with that token is cancelled");
+  if (nstart == 2) {
+    VERIF_ASSERT(ne_tx_count == 1 && tx_is(0, COAP_MESSAGE_CON, 1, (uint16_t)(mid + 2)), "S5 the freed NSTART slot goes to the oldest held Confirmable at once (it is not overtaken by later submissions)");
+    VERIF_ASSERT(ne_sess.delayqueue == NULL && ne_in_queue(ne_ctx.sendqueue, h) && ne_sess.con_active == 2, "S5 the released message is in flight, the window is full again");
+  } else {
+    VERIF_ASSERT(ne_tx_count == 0 && ne_sess.con_active == 1, "S5 the slot is free and nothing was waiting");
+  }
+  VERIF_REACH("S5 end");
 }
